@@ -391,7 +391,8 @@ def renameList (l : List Sheet) (a b : Name) : List Sheet :=
 
 theorem setSheetName_core (s s' : St) (a b : Name) (h : setSheetName s a b = .ok s') :
     s' = s ∨ (validName b = true ∧ (fold b = fold a ∨ ∀ sh ∈ s.sheets, fold sh.name ≠ fold b) ∧
-      core s' = ⟨s.count, s.activeTab, renameList s.sheets a b, s.defs⟩) := by
+      core s' = ⟨s.count, s.activeTab, renameList s.sheets a b, adjustDefs s.defs a b⟩) ∨
+    (core s' = ⟨s.count, s.activeTab, s.sheets, adjustDefs s.defs a b⟩) := by
   unfold setSheetName at h
   split at h
   · cases h
@@ -408,7 +409,7 @@ theorem setSheetName_core (s s' : St) (a b : Name) (h : setSheetName s a b = .ok
           · split at h
             · cases h
             · cases h
-              right
+              right; left
               refine ⟨by unfold validName; rw [hb], ?_, rfl⟩
               simp only [fact_renameClashCheck, Bool.true_and, Bool.and_eq_true, Bool.not_eq_true',
                 not_and, Bool.not_eq_true, Option.isSome_eq_false_iff, Option.isNone_iff_eq_none] at hclash
@@ -421,7 +422,7 @@ theorem setSheetName_core (s s' : St) (a b : Name) (h : setSheetName s a b = .ok
                 rw [getSheetIndex, hb] at hn
                 simp only [fact_foldGetSheetIndex, nameEq_true] at hn
                 exact (eqFold_false_iff _ _).mp (idxOf?_none _ _ hn sh hsh)
-          · cases h; left; rfl
+          · cases h; right; right; rfl
 
 
 /-- what `SetSheetVisible(…, false)` may do to one sheet -/
